@@ -804,7 +804,7 @@ def parse_extract_block(text):
         raise ExtractionError('extract: need FILE QUALNAME')
     spec = {'file': head[0], 'qual': head[1], 'as': head[1].replace('::', '_'), 'pick': 1, 'params': None,
             'inclass': False, 'static': False, 'ret': None, 'calls': [], 'throws': [], 'subs': [],
-            'contract': [], 'loops': {}, 'selfparam': None, 'methods': [], 'decl_only': False, 'unannotated_ok': False, 'pre': []}
+            'contract': [], 'loops': {}, 'selfparam': None, 'methods': [], 'fragment': None, 'sig': None, 'decl_only': False, 'unannotated_ok': False, 'pre': []}
     mode = None
     cur = None
     for ln in lines[1:]:
@@ -846,6 +846,11 @@ def parse_extract_block(text):
             spec['methods'].append((a.strip(), b.strip()))
         elif s == 'declonly':
             spec['decl_only'] = True
+        elif s.startswith('fragment '):
+            a_, b_ = s[9:].split(' ||| ')
+            spec['fragment'] = (a_.strip(), b_.strip())
+        elif s.startswith('sig '):
+            spec['sig'] = s[4:].strip()
         elif s == 'unannotated-loops-ok':
             spec['unannotated_ok'] = True
         elif s.startswith('ret '):
@@ -882,6 +887,24 @@ def do_extract(spec, cnt, exc_types, info):
                                                       spec['inclass'])
     cname = spec['as']
     cnt.hit('R2_function_located')
+    if spec['fragment']:
+        # a contiguous fragment of a (large) function body, verified as a function of its own: the text between the
+        # first match of START and the end of the first following match of END, verbatim; the signature (its free
+        # variables) is given by `sig`
+        ms = re.search(spec['fragment'][0], body)
+        me = re.search(spec['fragment'][1], body[ms.end():]) if ms else None
+        if not ms or not me:
+            raise ExtractionError('%s: fragment markers not found' % cname)
+        frag = body[ms.start():ms.end() + me.end()]
+        if frag.count('{') != frag.count('}'):
+            raise ExtractionError('%s: fragment is not brace-balanced' % cname)
+        boff = boff + ms.start()
+        body = '{' + frag + '}'
+        if not spec['sig']:
+            raise ExtractionError('%s: fragment needs a sig' % cname)
+        msig = re.match(r'^(.*?)\b(\w+)\s*\((.*)\)\s*$', spec['sig'])
+        ret, params = msig.group(1).strip(), msig.group(3)
+        cnt.hit('fragment_extracted')
     base_line = line_of(src, boff)
     ret = re.sub(r'\b(inline|static|virtual|XMLUTIL_EXPORT|XMLPARSER_EXPORT|explicit)\b', ' ', ret)
     ret = ' '.join(ret.split())
